@@ -9,12 +9,12 @@ def gen(rng, tier):
     for k in range(n):
         mem, halt, multi = programs.gen_program(rng, n=22)
         programs.handlers(mem, rng)
-        st = programs.start_state(rng, iff=rng.below(2), im=rng.choice([1, 2]))
+        st = programs.start_state(rng, iff=rng.below(2), im=rng.choice([0, 1, 2]))
         nst = 120
         sched = []
         for _ in range(rng.below(4)):
             kind = rng.below(2)
-            sched.append((rng.below(nst), kind, [] if kind == 0 else [0x10]))
+            sched.append((rng.below(nst), kind, [] if kind == 0 else rng.choice([[0x10], [0xFF], [0xCD, 0x38, 0x00], [0x00], [0x3E, 0x55]])))
         cid = "t%d" % k
         io = 0 if rng.chance(1, 4) else 1
         lines.append(pipeline.step_line(cid, st, mem=sorted(mem.items()), fill=0x76, nsteps=nst, sched=sched, inputs=[rng.below(256) for _ in range(6)], io=io))
@@ -84,6 +84,17 @@ def run(tier, seed):
         if witness:
             i, l, d = witness
             rep["input"] = {"case": l, "about": str(meta.get(i)), "differs": [{"what": a, "real_code": b, "required": c} for a, b, c in d[:5]]}
+            # isolation failures depend on what OTHER CPUs did earlier in the same process: when the case alone does not
+            # reproduce, keep the shortest run of preceding cases that does (the replay then runs them all, in order)
+            if not fails_alone([l], go_bin):
+                idx = [x.split()[1] for x in lines].index(l.split()[1]) if l.split()[1] in [x.split()[1] for x in lines] else -1
+                if idx >= 0:
+                    for m in (1, 2, 4, 8, 16, 32, len(lines)):
+                        hist = lines[max(0, idx - m):idx + 1]
+                        if fails_alone(hist, go_bin):
+                            rep["input"]["history"] = hist
+                            rep["input"]["about"] += " (fails only after the %d preceding cases ran in the same process)" % (len(hist) - 1)
+                            break
             common.violation(PROP, rep)
         else:
             rep["input"] = None
@@ -104,6 +115,15 @@ def run(tier, seed):
     common.write_evidence(PROP, tier, seed, "proof", cov, ["PARTIAL claim: see Props/C10.v header"], time.time() - t0)
     return 0
 
+def fails_alone(hist, go_bin):
+    """does the LAST case of hist fail (twin or specification) when hist is run, in order, in one process?"""
+    l = hist[-1]
+    tw = pipeline.run_lines(go_bin, twin_lines(hist))
+    if tw.get(l.split()[1], ["?"])[0] != "same":
+        return True
+    mism, _ = pipeline.compare(hist, go_bin, pipeline.build_spec_driver(), spec_masks=True)
+    return any(i == l.split()[1] for (i, _, _) in mism)
+
 def replay(path):
     import json
     rep = json.load(open(path))
@@ -111,8 +131,7 @@ def replay(path):
         print("no concrete input stored; broken:", rep.get("broken")); return 1
     l = rep["input"]["case"]
     go_bin = pipeline.build_stepper()
-    tw = pipeline.run_lines(go_bin, twin_lines([l]))
-    r = tw.get(l.split()[1], ["?"])[0]
-    mism, _ = pipeline.compare([l], go_bin, pipeline.build_spec_driver(), spec_masks=True)
-    print("twin:", r, " spec mismatch:", mism[0][2][:3] if mism else None)
-    return 1 if (r != "same" or mism) else 0
+    hist = rep["input"].get("history") or [l]
+    bad = fails_alone(hist, go_bin)
+    print("history of %d case(s): the last one %s" % (len(hist), "still fails" if bad else "passes now"))
+    return 1 if bad else 0
